@@ -10,6 +10,7 @@ CONSTANTS
   RAWANG <- NONE
   QUADS = {1,3,5,7,10,12,14,16,19}
   SCALES <- NONE
+  AXQUADS = {}
 INVARIANT TypeOK
 INVARIANT StackOrtho
 INVARIANT NormLaw
@@ -17,5 +18,6 @@ INVARIANT OmegaLaw
 INVARIANT OriginLaw
 INVARIANT Roundtrip
 INVARIANT EwaldBound
+INVARIANT AxisLaw
 INVARIANT Emit
 CHECK_DEADLOCK FALSE
